@@ -167,7 +167,8 @@ Definition enc_pobs (o : pobs) : tree :=
   if o_panic o then T [L (-1)]
   else T [ofB (o_result_nil o); L (o_err o); ofList (fun r => T [bytes_tree (fst r); snd r]) (o_recs o)].
 
-(* observable components (C15): 1 panic, 2 first return value nil, 3 error enum, 4 records (topics and values) *)
+(* observable components (C15): 1 panic, 2 first return value nil, 3 error enum, 4 records (topics and values),
+   5 (sequences) number of calls *)
 Definition pobs_diffs (a b : pobs) : list Z :=
   diff_if (Bool.eqb (o_panic a) (o_panic b)) 1 ++ diff_if (Bool.eqb (o_result_nil a) (o_result_nil b)) 2
   ++ diff_if (o_err a =? o_err b) 3 ++ diff_if (list_eqb rec_eqb (o_recs a) (o_recs b)) 4.
@@ -193,12 +194,71 @@ Definition ptags (i : pinput) : list Z :=
       ++ (if r_form r then [19] else [])
   end.
 
-Definition judge15 (ti to : tree) : tree :=
+Definition judge15_one (ti to : tree) : tree :=
   match dec_pinput ti, dec_pobs to with
   | Some i, Some o =>
       let m := model_pobs i in
       verdict (pobs_diffs m o) (map (fun c => clause 15 c []) (spec_c15 i o)) (enc_pobs m) (ptags i)
   | _, _ => malformed
+  end.
+
+(* ---------- sequences of calls on ONE producer instance, records read after the last call ----------
+   input  (3 cfg_topic ((1 preq) | (2 ereq) ...)),  obs  (3 (obs_1 ... obs_n)).
+   The statement is per event, so call k is judged with the record the harness attributes to it (the k-th record
+   belongs to the k-th call that returned no error).  The model of a sequence is the single-call model mapped
+   over the calls: the code keeps no state between calls that the property lets matter. *)
+Definition dec_pcall (ct : bytes) (t : tree) : option pinput :=
+  match t with
+  | T [L 1; p] => p <- dec_preq p ;; Some (IProduce ct p)
+  | T [L 2; q] => q <- dec_ereq q ;; Some (IReport ct q)
+  | _ => None
+  end.
+
+Definition model_pseq (is : list pinput) : list pobs := map model_pobs is.
+
+Fixpoint spec_c15_seq (k : Z) (is : list pinput) (os : list pobs) : list tree :=
+  match is, os with
+  | i :: is', o :: os' => map (fun c => clause 15 c [L k]) (spec_c15 i o) ++ spec_c15_seq (k + 1) is' os'
+  | _, _ => []
+  end.
+
+Fixpoint pseq_diffs (ms os : list pobs) : list Z :=
+  match ms, os with
+  | m :: ms', o :: os' => pobs_diffs m o ++ pseq_diffs ms' os'
+  | [], [] => []
+  | _, _ => [5]                      (* component 5: number of calls observed *)
+  end.
+
+Definition is_report (i : pinput) : bool := match i with IReport _ (RReport _) => true | _ => false end.
+
+(* extra tags: 40 a sequence of at least two calls, 41 at least two error reports in one sequence *)
+Definition pseq_tags (is : list pinput) : list Z :=
+  flat_map ptags is
+  ++ (if (2 <=? length is)%nat then [40] else [])
+  ++ (if (2 <=? length (filter is_report is))%nat then [41] else []).
+
+Definition judge15_seq (ct calls to : tree) : tree :=
+  match ct, calls, to with
+  | T _, T cs, T [L 3; T tos] =>
+      match getZs ct with
+      | Some ctb =>
+          match mapM (dec_pcall ctb) cs, mapM dec_pobs tos with
+          | Some is, Some os =>
+              if (length is =? length os)%nat then
+                let ms := model_pseq is in
+                verdict (pseq_diffs ms os) (spec_c15_seq 0 is os) (T [L 3; T (map enc_pobs ms)]) (pseq_tags is)
+              else malformed
+          | _, _ => malformed
+          end
+      | None => malformed
+      end
+  | _, _, _ => malformed
+  end.
+
+Definition judge15 (ti to : tree) : tree :=
+  match ti with
+  | T [L 3; ct; calls] => judge15_seq ct calls to
+  | _ => judge15_one ti to
   end.
 
 
@@ -346,10 +406,12 @@ Definition dec_einput (t : tree) : option einput :=
   | T [T [bs; mr; w; L _]; ops; sc; L e] =>
       bs <- getNat bs ;; mr <- getNat mr ;; w <- getNat w ;; ops <- getList dec_op ops ;;
       sc <- getList dec_script_entry sc ;;
-      ok <- (if (e =? 0) || (e =? 1) || ((e =? 2) && negb (existsb (fun o => match o with OpPause => true | _ => false end) ops))
+      ok <- (if (e =? 0) || (e =? 1) || (e =? 3) || ((e =? 2) && negb (existsb (fun o => match o with OpPause => true | _ => false end) ops))
              then Some tt else None) ;;
+      (* end 3: the harness holds every bulk request while the ops run and releases them before a clean end; the
+         model's batches are values, so for the model this is the clean end 0 *)
       Some {| ei_cfg := {| batch_size := bs; max_retries := mr; workers := w |}; ei_ops := ops; ei_script := sc;
-              ei_clean := e =? 0; ei_gate := e =? 2 |}
+              ei_clean := (e =? 0) || (e =? 3); ei_gate := e =? 2 |}
   | _ => None
   end.
 Definition dec_ans (t : tree) : option (Z * list tree) :=
